@@ -315,8 +315,44 @@ def run(chk):
                 chk.violation("C04.length", c, K.short(c), f"{wname}.write(<data>[:{sorted(aliases)[0]}]) | under `{lname} is None`",
                               f"{cls.name}.write_with_length hands a chunk to the writer without truncating it to the remaining declared length: a read that returns more bytes than asked for (text-mode files count characters; the first read is uncapped when the remainder is 0) puts surplus bytes on the connection after the declared body")
     chk.expect_count("C04.length", n_cap, 7, "writer.write calls in write_with_length implementations")
+    bodiless(chk, repo)
     # ---- shared ------------------------------------------------------------------------------------------------------------------------
     from rules import C02, C19
 
     chk.include(C02.run, ("C02.chunkpair", "C02.flushonce"), ("C02.", "C04."))
     chk.include(C19.run, ("C19.size",), ("C19.", "C04.multipart."))
+
+
+def bodiless(chk, repo, rule="C04.bodiless"):
+    """A response that must not have a body (HEAD, 1xx, 204, 304: StreamResponse._must_be_empty_body) gets no framing at all: neither
+    chunking nor a usable length.  Every byte handed to the payload writer for such a response lands raw between this response's head
+    and the next response.  So every call that hands *data* to the payload writer from the response classes is gated by the flag."""
+    n = 0
+    for rel, cname in ((WRESP, "StreamResponse"), (WRESP, "Response")):
+        cls = repo.cls(rel, cname)
+        for m in cls.methods.values():
+            for c in prog.calls_in(m.node):
+                f = norm.raw(c.func)
+                if f not in ("self._payload_writer.write", "self._payload_writer.write_eof", "self._body.write", "super().write_eof"):
+                    continue
+                data = [a for a in c.args if not (isinstance(a, ast.Constant) and not a.value)]
+                if f == "self._body.write":
+                    data = [c]
+                if not data:
+                    continue  # write_eof() without data only finishes the message
+                n += 1
+                gated = PC.has_lit(PC.pc(c), "self._must_be_empty_body", False) is not None
+                # data known to be empty on this path (`if self._must_be_empty_body: data = b""`)
+                if not gated and isinstance(data[0], ast.Name):
+                    g = cfg_of(m.node)
+                    node = next((x for x in g.nodes if x.in_finally_copy is None and any(y is c for y in K.node_calls(x))), None)
+                    tests = [x for x in g.nodes if x.kind == "test" and "_must_be_empty_body" in norm.raw(x.ast)]
+                    clears = [x for x in g.nodes if x.kind == "stmt" and isinstance(x.ast, ast.Assign) and norm.raw(x.ast.targets[0]) == data[0].id and isinstance(x.ast.value, ast.Constant) and not x.ast.value.value]
+                    if node is not None and tests and clears and g.find_path(None, lambda x: x is node, lambda x: x in clears, EXPLICIT, [(t, "T") for t in tests]) is None:
+                        gated = True
+                if gated:
+                    chk.ok(rule, c, f"{cname}.{m.name}(): `{K.short(c, 50)}` hands body data to the writer only when the response may have a body")
+                else:
+                    chk.violation(rule, c, K.short(c), "!(self._must_be_empty_body)",
+                                  f"{cname}.{m.name}() hands body data to the payload writer of a response that must not have a body (HEAD, 1xx, 204, 304): the bytes are written raw after the header block and are read by the peer as the start of the next response")
+    chk.expect_count(rule, n, 4, "calls handing body data to the payload writer in the response classes")
